@@ -668,24 +668,26 @@ pub fn c11_sizes(cfg: &Cfg) -> u64 {
 
 pub fn c11(cfg: &Cfg, idx: u64, st: &mut Stats) {
     let mut rng = rng_for(cfg, idx);
-    if idx < 6 {
+    if idx < 10 {
         // multi-MiB builds: the first flush call fails whenever it comes, or
-        // a write fails deep into the build (cache full, evictions running)
+        // a write fails deep into the build (cache full, evictions running);
+        // indices 6..9: a set, and the sink returns Ok(0) for the first write
+        // of 3..7 bytes far into the output (an address more than 64 KiB back)
         let n = match cfg.tier {
             Tier::Quick => 250_000,
             Tier::Thorough => 3_000_000,
         };
         let case = MemBuildCase {
             fam: KeyFamily { n, fanout: 26, keylen: 12, seed: rng.next_u64(), pairs: idx == 1, leaf_fan: 0, decreasing: false, repeat: 1, sec_vocab: 0, sec_parents: 0 },
-            map: idx % 2 == 0,
+            map: idx % 2 == 0 && idx < 6,
             registry: [None, Some((64, 2)), Some((3, 3))][(idx % 3) as usize],
             bufcap: if idx == 2 { Some(8192) } else { None },
             // 0 = fail the first flush; otherwise fail this write call
-            every: if idx < 3 { 0 } else { 50_000 + rng.below(n) * 2 },
-            shape: Shape::Random { short_16: 2, intr_16: 1 },
+            every: if idx < 3 { 0 } else if idx >= 6 { 300_000 + rng.below(n) * 3 } else { 50_000 + rng.below(n) * 2 },
+            shape: if idx >= 8 { Shape::Full } else { Shape::Random { short_16: 2, intr_16: 1 } },
             bulk: false,
             bulk_stream: false,
-            rejects: 0,
+            rejects: (idx >= 6) as u32,
             reject_run: 0,
             threads: 1,
             prologue: 0,
@@ -1653,6 +1655,42 @@ pub fn c15(cfg: &Cfg, idx: u64, st: &mut Stats) {
                 *rng.pick(&[Front::Set, Front::Raw, Front::Map])
             };
             let mut ops = gen::group_ops(&mut rng, front, &items);
+            if front == Front::Set && rng.chance(1, 3) {
+                // a set builder takes its last key again as a no-op, through
+                // every entry point: the key that ended one call comes once
+                // more at the head of the next (a chunk resumed inclusively)
+                let mut out: Vec<Op> = Vec::new();
+                let mut last: Option<Vec<u8>> = None;
+                let mut repeats = 0u64;
+                for o in ops.into_iter() {
+                    let mut o = o;
+                    if let Some(k) = &last {
+                        if rng.chance(1, 2) {
+                            match &mut o {
+                                Op::ExtIter(it) | Op::ExtStream(it, Via::Vec) => {
+                                    it.insert(0, (k.clone(), 0));
+                                    repeats += 1;
+                                }
+                                Op::Ins(_, _) | Op::Add(_) => {
+                                    out.push(Op::Ins(k.clone(), 0));
+                                    repeats += 1;
+                                }
+                                _ => {}
+                            }
+                        }
+                    }
+                    let lk = match &o {
+                        Op::Ins(k, _) | Op::Add(k) => Some(k.clone()),
+                        Op::ExtIter(it) | Op::ExtStream(it, _) => it.last().map(|x| x.0.clone()),
+                    };
+                    if lk.is_some() {
+                        last = lk;
+                    }
+                    out.push(o);
+                }
+                ops = out;
+                st.count("probe.c15_set_last_key_repeated_across_calls", repeats);
+            }
             if rng.chance(1, 4) {
                 // calls that must be rejected do not belong to the accepted
                 // sequence and must not influence the bytes
@@ -1964,6 +2002,24 @@ pub fn c13_cases(cfg: &Cfg) -> Vec<MemBuildCase> {
             reject_run: 0,
             threads: 1,
             prologue: *pro,
+        });
+    }
+    // keys far longer than all earlier ones that arrive late (whatever grows
+    // with the longest key must not be sized by the number of keys so far)
+    for (i, map) in [false, true].iter().enumerate() {
+        out.push(MemBuildCase {
+            fam: KeyFamily { n: 400_000, fanout: 26, keylen: 12 + 30 * i as u32, seed: seed ^ 0x1a7e ^ i as u64, pairs: false, leaf_fan: 0, decreasing: false, repeat: 1, sec_vocab: 0, sec_parents: 0 },
+            map: *map,
+            registry: if i == 1 { Some((64, 2)) } else { None },
+            bufcap: None,
+            every: 1000,
+            shape: shapes[i % shapes.len()],
+            bulk: false,
+            bulk_stream: false,
+            rejects: 0,
+            reject_run: 0,
+            threads: 1,
+            prologue: 16,
         });
     }
     // the raw builder with `insert` (an output) and `add` (none) mixed on one
